@@ -64,8 +64,15 @@ XPowf(a, q) ==
       [] a = X1 -> X1
       [] OTHER -> Assert(FALSE, <<"XPowf: no exact value", a, q>>)
 \* elementary functions at the special points (value at 0 resp. 1)
+\* |x| >= Huge stands for "exp(|x|) overflows" (710 for f64, 89 for f32): the saturation points
+Huge == <<1000, 1>>
+XIsHuge(a) == XIsQ(a) /\ ~QLt(QAbs(a[2]), Huge)
 XFun(fn, a) ==
-    CASE fn \in {"sin", "sinh", "asin", "atan", "asinh", "atanh", "exp_m1", "ln_1p", "tan", "tanh"} /\ XIsZeroV(a) -> X0
+    CASE XIsHuge(a) /\ fn \in {"exp", "exp2", "cosh"} -> IF fn = "cosh" \/ QSign(a[2]) > 0 THEN XInf(1) ELSE X0
+      [] XIsHuge(a) /\ fn = "sinh" -> XInf(QSign(a[2]))
+      [] XIsHuge(a) /\ fn = "tanh" -> XQ(QInt(QSign(a[2])))
+      [] XIsHuge(a) /\ fn = "exp_m1" -> IF QSign(a[2]) > 0 THEN XInf(1) ELSE XQ(QInt(-1))
+      [] fn \in {"sin", "sinh", "asin", "atan", "asinh", "atanh", "exp_m1", "ln_1p", "tan", "tanh"} /\ XIsZeroV(a) -> X0
       [] fn \in {"cos", "cosh", "exp", "exp2"} /\ XIsZeroV(a) -> X1
       [] fn \in {"ln", "log2", "log10"} /\ a = X1 -> X0
       [] fn = "sqrt" /\ XIsQ(a) /\ QHasSqrt(a[2]) -> XQ(QSqrt(a[2]))
